@@ -135,13 +135,12 @@ func TestParams(t *testing.T) {
 				ev["nu"], ev["ts"] = int(v.Vps_num_units_in_tick), int(v.Vps_time_scale)
 			}
 		default:
+			// what the server derives for a stream from the configuration alone (the path taken when the SDP's
+			// rtpmap does not settle the rate): aac.MetadataIsReady on a metadata record that holds only the config
 			var a aac.AudioSpecificConfig
-			if err := a.Decode(ps); err == nil {
-				rate := a.SampleRate
-				if a.ExtSampleRate > 0 {
-					rate = a.ExtSampleRate
-				}
-				ev["ok"], ev["rate"], ev["ch"] = true, rate, int(a.Channels)
+			am := codec.AudioMeta{Codec: "AAC", Sps: ps}
+			if err := a.Decode(ps); err == nil && aac.MetadataIsReady(&am) {
+				ev["ok"], ev["rate"], ev["ch"] = true, am.SampleRate, am.Channels
 			}
 		}
 		out.Put(ev)
